@@ -321,6 +321,10 @@ func VerticalZoom(inputZoom int64, vIndex int64, outputZoom int64) []string {
 		// 垂直精度が下がった場合
 		// 変換後の v 成分の最小値を定義
 		minVparam = vIndex / vVoxelNum
+		// 負のインデックスは0方向への切り捨てではなく、床関数で親ボクセルのインデックスを求める
+		if vIndex < 0 && vIndex%vVoxelNum != 0 {
+			minVparam--
+		}
 
 		// 変換後の z 成分の最大値を定義
 		maxVparam = minVparam
